@@ -53,6 +53,7 @@ META = dict(
     design_ref="DESIGN.md §5 C27",
 )
 N_QUICK, N_THOROUGH = 100, 1000
+N_SEARCH = 200   # size of the extra oracle search after a broken obligation/correspondence (real threaded runs are slow)
 PARALLEL = 8
 SHARD = 60
 RUN_TIMEOUT = 120
@@ -159,6 +160,16 @@ def _real(case):
         orig_init(selfa, agt_def, *a, **k)
         agents[agt_def.name] = selfa
     oa.OrchestratedAgent.__init__ = init
+    crashes = []      # Agent._run calls on_fatal_error(e) when the agent's thread dies of an exception
+    oa.OrchestratedAgent.on_fatal_error = lambda selfa, e: crashes.append(
+        [selfa.name, type(e).__name__, str(e)[:200]])
+    orig_mgt_stop = om.AgentsMgt.stop
+
+    def mgt_stop(selfm):     # only called from the except clause of AgentsMgt.on_message
+        import traceback
+        crashes.append(["orchestrator", "critical", traceback.format_exc()[-400:]])
+        return orig_mgt_stop(selfm)
+    om.AgentsMgt.stop = mgt_stop
     tr = rt.MgtTrace().install()
     snap = {}
     M = om.AgentsMgt
@@ -195,6 +206,8 @@ def _real(case):
     t0 = time.time()
     done = threading.Event()
 
+    wres = {}
+
     def watcher():
         # wait for the end of the repair, let registrations settle, read the state, stop the run
         limit = time.time() + 60
@@ -203,22 +216,22 @@ def _real(case):
             b = snap.get("before")
             if b is not None and _unreplicated(b, case["leaving"]):
                 break       # hypothesis of C27 not met (see oracle): nothing will ever happen
-        res["repair_finished"] = orch.mgt.dist_count >= 1
-        res["repair_wait"] = time.time() - t0
+        wres["repair_finished"] = orch.mgt.dist_count >= 1
+        wres["repair_wait"] = time.time() - t0
         time.sleep(1.5)
         d = orch.discovery
-        res["directory"] = {a: sorted(d.agent_computations(a)) for a in d.agents()}
-        res["dir_hosts"] = {}
+        wres["directory"] = {a: sorted(d.agent_computations(a)) for a in d.agents()}
+        wres["dir_hosts"] = {}
         for n in res["static"]["nodes"]:
             try:
-                res["dir_hosts"][n] = d.computation_agent(n)
+                wres["dir_hosts"][n] = d.computation_agent(n)
             except Exception as e:
-                res["dir_hosts"][n] = None
-        res["hosted"] = {a: sorted(c.name for c in ag.computations() if not c.name.startswith("B"))
+                wres["dir_hosts"][n] = None
+        wres["hosted"] = {a: sorted(c.name for c in ag.computations() if not c.name.startswith("B"))
                          for a, ag in agents.items() if ag.is_running}
-        res["leftover_repair"] = {a: sorted(c.name for c in ag.computations() if c.name.startswith("B"))
+        wres["leftover_repair"] = {a: sorted(c.name for c in ag.computations() if c.name.startswith("B"))
                                   for a, ag in agents.items() if ag.is_running}
-        res["paused"] = {a: sorted(c.name for c in ag.computations() if c.is_paused)
+        wres["paused"] = {a: sorted(c.name for c in ag.computations() if c.is_paused)
                          for a, ag in agents.items() if ag.is_running}
         done.set()
         orch.stop_agents(10)
@@ -235,6 +248,10 @@ def _real(case):
         w.start()
         orch.run(sc, timeout=RUN_TIMEOUT)
         done.wait(5)
+        if done.is_set():
+            res.update(dict(wres))
+        else:
+            res["watcher_incomplete"] = True     # the run ended before the end state was read
         res["status"] = orch.status
         res["elapsed"] = time.time() - t0
     finally:
@@ -242,6 +259,7 @@ def _real(case):
             orch._timeout_timer.cancel()
         orch.stop_agents(5)
         orch.stop()
+    res["crashes"] = crashes
     res["before"] = snap.get("before")
     res["repair_status"] = snap.get("status", [])
     res["trace"] = [e for e in tr.entries
@@ -364,10 +382,6 @@ def _crafted_isolated(case):
         M.on_message, M._send_mgt_msg, M._cb_agent_registration, M._cb_computation_registration = saved
         os.chdir(old)
         shutil.rmtree(d, ignore_errors=True)
-        try:
-            os.rmdir(rt.WORK)
-        except OSError:
-            pass
 
 
 def run_impl(case):
@@ -390,6 +404,10 @@ def _problems(case, o):
     nodes = o["static"]["nodes"]
     leaving = set(case["leaving"])
     before = o["before"]
+    if o.get("crashes"):
+        return [(None, "thread died / critical error during the run: %r" % (o["crashes"][:3],))]
+    if o.get("watcher_incomplete") or before is None:
+        return [(None, "the run ended before the state after the repair could be read")]
     if before is not None and _unreplicated(before, case["leaving"]):
         return []       # hypothesis not met: counted in the histogram as 'real_unreplicated'
     if not o.get("repair_finished"):
